@@ -708,15 +708,39 @@ def _install_pymarkdown_seams():
                 raise BadTokenizationError("pmsim injected parser failure")
             if fault is not None and fault["act"] == "kill":
                 _kill()
+            # what the parser itself reads (whatever kind of provider it is handed, file
+            # or in-memory): the text this parse is a parse OF
+            provider = args[0] if args else kwargs.get("source_provider")
+            consumed, hooked = [], False
+            if S.record_cb and provider is not None and callable(getattr(provider, "get_next_line", None)):
+                provider_next = provider.get_next_line
+
+                def recording_next():
+                    line = provider_next()
+                    if line is not None:
+                        consumed.append(line)
+                    return line
+
+                try:
+                    provider.get_next_line = recording_next
+                    hooked = True
+                except Exception:  # pragma: no cover
+                    hooked = False
             S.in_parse += 1
             try:
                 tokens = real_transform(self, *args, **kwargs)
             finally:
                 S.in_parse -= 1
+                if hooked:
+                    try:
+                        del provider.get_next_line
+                    except Exception:  # pragma: no cover
+                        pass
             if S.record_cb:
                 digests = [hashlib.sha1(str(t).encode("utf-8", "replace")).hexdigest()[:12] for t in tokens]
                 last_pragma = bool(tokens) and bool(getattr(tokens[-1], "is_pragma", False))
-                S.log.append(["parse", digests, last_pragma])
+                parsed_text = "\n".join(consumed) if hooked and sum(len(c) for c in consumed) < 400000 else None
+                S.log.append(["parse", digests, last_pragma, parsed_text])
             return tokens
 
         TokenizedMarkdown.transform_from_provider = transform_from_provider
